@@ -358,6 +358,10 @@ func runC01(r *Run) {
 					}
 				}
 			}
+			if !onNotOk {
+				// the same choice written the other way round: bucket 0 as the default, replaced on the ok edge
+				onNotOk = bucketChoiceByLastWrite(f, commaok, zero)
+			}
 			r.check(onNotOk, s.fn+":bucket-fallback", r.pos(zero), "bucket 0 is used exactly when the hashed bucket is absent", "bucket-0 fallback is not on the !ok edge")
 		}
 	})
@@ -537,34 +541,36 @@ func runC01(r *Run) {
 		}
 		r.need(target != nil, "addRoute stores Route.Handlers (merge branch)")
 		isT := func(in ssa.Instruction) bool { return in == target }
-		gates := map[string][]edge{}
-		for _, br := range branchesIn(f) {
-			if br.Info.Op == token.EQL && br.Info.Other != nil {
-				if loadOfField(br.Info.Root, "Route.Path") && loadOfField(br.Info.Other, "Route.Path") {
-					gates["equal-Path"] = append(gates["equal-Path"], edge{br.If.Block(), br.slotWhenRel(true)})
+		// a gate is a branch edge, or (inside a boolean helper the guard was moved into) the value the helper answers
+		eqOf := func(field string) func(ci condInfo) (bool, bool) {
+			return func(ci condInfo) (bool, bool) {
+				if (ci.Op != token.EQL && ci.Op != token.NEQ) || ci.Other == nil {
+					return false, false
 				}
-				if loadOfField(br.Info.Root, "Route.use") && loadOfField(br.Info.Other, "Route.use") {
-					gates["equal-use"] = append(gates["equal-use"], edge{br.If.Block(), br.slotWhenRel(true)})
+				if !loadOfField(ci.Root, field) || !loadOfField(ci.Other, field) {
+					return false, false
 				}
-			}
-			if loadOfField(br.Info.Root, "Route.mount") {
-				if s, ok := br.truthSlot(false); ok {
-					gates["not-mount"] = append(gates["not-mount"], edge{br.If.Block(), s})
-				}
+				return ci.Op == token.EQL, true
 			}
 		}
+		gates := map[string][]gateItem{
+			"equal-Path": gateItemsIn(f, eqOf("Route.Path")),
+			"equal-use":  gateItemsIn(f, eqOf("Route.use")),
+			"not-mount": gateItemsIn(f, func(ci condInfo) (bool, bool) {
+				if ci.Op != token.ILLEGAL || !loadOfField(ci.Root, "Route.mount") {
+					return false, false
+				}
+				return false, true
+			}),
+		}
 		for _, gname := range []string{"equal-Path", "equal-use"} {
-			cut := map[edge]bool{}
-			for _, e := range gates[gname] {
-				cut[e] = true
-			}
-			_, hit := reach(entryOf(f), isT, cut, nil)
-			r.check(len(cut) > 0 && hit == nil, "addRoute:merge-needs-"+gname, r.pos(target), "merge unreachable with the "+gname+" edge removed", "handlers can be merged into the previous route without "+gname)
+			_, hit := reach(entryOf(f), isT, cutsFor(f, gates[gname]), nil)
+			r.check(len(gates[gname]) > 0 && hit == nil, "addRoute:merge-needs-"+gname, r.pos(target), "merge unreachable with the "+gname+" edge removed", "handlers can be merged into the previous route without "+gname)
 		}
 		// both mount tests are needed: removing either one alone must make the merge unreachable
 		r.check(len(gates["not-mount"]) >= 2, "addRoute:merge-needs-both-not-mount", r.pos(target), "two mount tests guard the merge", "fewer than two `!mount` tests guard the merge")
-		for i, e := range gates["not-mount"] {
-			_, hit := reach(entryOf(f), isT, map[edge]bool{e: true}, nil)
+		for i, it := range gates["not-mount"] {
+			_, hit := reach(entryOf(f), isT, cutsFor(f, []gateItem{it}), nil)
 			r.check(hit == nil, fmt.Sprintf("addRoute:merge-needs-not-mount#%d", i), r.pos(target), "merge unreachable with this `!mount` edge removed", "a mount placeholder can be merged with a neighbouring route")
 		}
 		// the other branch assigns pos from the global counter and appends to the stack
@@ -916,4 +922,122 @@ func comparatorIsAscendingOn(cmp *ssa.Function, field string) (bool, string) {
 		return true, ""
 	}
 	return false, fmt.Sprintf("relation on signs (<,=,>) = (%v,%v,%v), want (true,false,false)", eval(-1), eval(0), eval(1))
+}
+
+// bucketChoiceByLastWrite: the variable the scanner reads its bucket from holds the hashed bucket after the ok edge
+// of `bucket, ok := m[hash]` and bucket 0 after the !ok edge, whichever way round the two assignments are written
+// (`tree := m[0]; if b, ok := m[h]; ok { tree = b }`).  Decided on the variable's writes: a memory cell (the variable
+// is captured by a closure) by the last store on each side, a register by the edges of its phi.
+func bucketChoiceByLastWrite(f *ssa.Function, commaok, zero *ssa.Lookup) bool {
+	var okEdge, notOkEdge *edge
+	for _, br := range branchesIn(f) {
+		if ex, ok := stripValue(br.Info.Root).(*ssa.Extract); ok && ex.Tuple == commaok && ex.Index == 1 {
+			if s1, ok := br.truthSlot(true); ok {
+				e1, e0 := edge{br.If.Block(), s1}, edge{br.If.Block(), 1 - s1}
+				okEdge, notOkEdge = &e1, &e0
+			}
+		}
+	}
+	if okEdge == nil {
+		return false
+	}
+	isHashed := func(v ssa.Value) bool {
+		ex, ok := stripValue(v).(*ssa.Extract)
+		return ok && ex.Tuple == commaok && ex.Index == 0
+	}
+	isZero := func(v ssa.Value) bool { return stripValue(v) == ssa.Value(zero) }
+	ifBlock := okEdge.From
+	// register form
+	for _, b := range f.Blocks {
+		for _, in := range b.Instrs {
+			ph, ok := in.(*ssa.Phi)
+			if !ok || len(ph.Edges) != 2 {
+				continue
+			}
+			good := 0
+			for k, ev := range ph.Edges {
+				pred := b.Preds[k]
+				side := func(e *edge) bool {
+					return (pred == ifBlock && e.To() == b) || (e.To() != b && dom(e.To(), pred))
+				}
+				if isHashed(ev) && side(okEdge) && !side(notOkEdge) {
+					good++
+				}
+				if isZero(ev) && side(notOkEdge) && !side(okEdge) {
+					good++
+				}
+			}
+			if good == 2 {
+				return true
+			}
+		}
+	}
+	// cell form
+	var cell ssa.Value
+	var s0, s1 []*ssa.Store
+	for _, b := range f.Blocks {
+		for _, in := range b.Instrs {
+			st, ok := in.(*ssa.Store)
+			if !ok {
+				continue
+			}
+			if isZero(st.Val) {
+				s0 = append(s0, st)
+				cell = st.Addr
+			}
+		}
+	}
+	if len(s0) != 1 || cell == nil {
+		return false
+	}
+	others := 0
+	for _, b := range f.Blocks {
+		for _, in := range b.Instrs {
+			if st, ok := in.(*ssa.Store); ok && st.Addr == cell && st != s0[0] {
+				if isHashed(st.Val) {
+					s1 = append(s1, st)
+				} else {
+					others++
+				}
+			}
+		}
+	}
+	if len(s1) != 1 || others != 0 {
+		return false
+	}
+	z, h := ssa.Instruction(s0[0]), ssa.Instruction(s1[0])
+	before := func(x ssa.Instruction) bool { // x is executed on every path to the If, ahead of it
+		return x.Block() == ifBlock || (dom(x.Block(), ifBlock) && x.Block() != ifBlock)
+	}
+	later := func(x, y ssa.Instruction) bool { // both before the If: x after y
+		if x.Block() == y.Block() {
+			for _, in := range x.Block().Instrs {
+				if in == y {
+					return true
+				}
+				if in == x {
+					return false
+				}
+			}
+		}
+		return dom(y.Block(), x.Block())
+	}
+	holdsAfter := func(e *edge, want, other ssa.Instruction) bool {
+		is := func(t ssa.Instruction) func(ssa.Instruction) bool {
+			return func(in ssa.Instruction) bool { return in == t }
+		}
+		if _, hit := reachEdge(*e, is(other), nil, nil); hit != nil {
+			return false // the other value is written on this side
+		}
+		if _, hit := reachEdge(*e, is(want), nil, nil); hit != nil {
+			_, miss := reachEdge(*e, isReturn, nil, is(want))
+			return miss == nil // written on every path of this side
+		}
+		// not written on this side: it is what the variable held at the branch
+		if !before(want) {
+			return false
+		}
+		return !before(other) || later(want, other)
+	}
+	return holdsAfter(okEdge, h, z) && holdsAfter(notOkEdge, z, h)
 }
